@@ -36,6 +36,12 @@ class Player(object):
             self.hist.append(call)
         elif status == 'truncated:refusal-mutated' and self.lenient:
             status = 'refused'        # C02 reports it; other checks go on with the competition as it now is
+        elif status in ('truncated:stage', 'truncated:cards', 'truncated:wrongly-accepted') and self.lenient:
+            # the implementation accepted the call but disagrees with the model (C02 reports that): the competition
+            # as it now stands is still a reachable one for the round-trip checks; the play ends here
+            self.hist.append(call)
+            self.alive = False
+            status = 'diverged'
         elif status != 'refused':
             self.alive = False
         if self.on_call:
